@@ -196,6 +196,19 @@ class Engine:
             return SeqV(desc[0].upper(), fresh(name, SeqV.SORT[desc[0].upper()]))
         if desc in ('alist', 'rlist', 'ilist'):
             return SeqV(desc[0].upper(), fresh(name, SeqV.SORT[desc[0].upper()]), True)
+        if desc == 'map:stats':
+            # {arm: {'count':.., 'sum':.., 'min':.., 'max':.., 'mean':.., 'std':..}}
+            cols = {f: fresh('%s_%s' % (name, f), z3.ArraySort(Arm, Real)) for f in ('count', 'sum', 'min', 'max', 'mean', 'std')}
+            return st.alloc(MapO(fresh(name + '_keys', ASeq), cols, {f: 'real' for f in cols}), fresh=False)
+        if desc == 'split6':
+            # (train decisions, train rewards, train contexts, test decisions, test rewards, test contexts)
+            def part(tag):
+                return [SeqV('A', fresh('%s_%s_d' % (name, tag), ASeq)), SeqV('R', fresh('%s_%s_r' % (name, tag), RSeq)),
+                        MatV(fresh('%s_%s_x' % (name, tag), Mat))]
+            return TupleV(part('train') + part('test'))
+        if desc.startswith('record:'):
+            # a dictionary literal with the given string keys and numeric values
+            return RecordV({f.strip(): Num(fresh('%s_%s' % (name, f.strip()), Real)) for f in desc[7:].split(',')})
         if desc.startswith('imap:'):
             # dict keyed by range(n): LSH hyperplanes ('imap:mat') and hash tables ('imap:hashtab')
             vk = desc.split(':')[1]
@@ -512,7 +525,14 @@ class Engine:
             except Infeasible:
                 pass
             except Unsupported as e:
-                if str(e).startswith('arm-parametric') and not fi.module.startswith('lemma_'):
+                if str(e).startswith('hash-order') and not fi.module.startswith('lemma_'):
+                    nonparam.append(str(e))
+                    ob = Obligation('%s:hash.order' % label, qual, 'hash.order', list(run.st.pc), z3.BoolVal(False),
+                                    props=tuple(set(sp.props) | {'C04', 'C19', 'C20'}),
+                                    meta={'clause': 'no result depends on the iteration order of a set of labels (%s)' % e})
+                    ob.path = list(run.path.taken)
+                    run.obligs.append(ob)
+                elif str(e).startswith('arm-parametric') and not fi.module.startswith('lemma_'):
                     # MT3 side condition (C20): an arm label flows into an operation other than ==, hashing, storage
                     nonparam.append(str(e))
                     ob = Obligation('%s:arm.parametric' % label, qual, 'arm.parametric', list(run.st.pc),
@@ -542,6 +562,11 @@ class Engine:
                             props=tuple(set(sp.props) | {'C20'}),
                             meta={'clause': 'arm labels are used only through equality, dict/list storage and membership '
                                             '(checked on every explored path by the translation itself)'})
+            ob.path = []
+            obligs.append(ob)
+            ob = Obligation('%s:hash.order' % label, qual, 'hash.order', [], z3.BoolVal(True),
+                            props=tuple(set(sp.props) | {'C04', 'C19', 'C20'}),
+                            meta={'clause': 'no explored path iterates over a set of arm labels'})
             ob.path = []
             obligs.append(ob)
             ob = Obligation('%s:attr.universe' % label, qual, 'attr.universe', [], z3.BoolVal(True),
@@ -856,6 +881,12 @@ def static_obligations(eng):
         if ci.module.startswith('lemma_'):
             continue
         hooks = [m for m in COPY_HOOKS if m in ci.methods or m in ci.class_attrs]
+        for mfi in ci.methods.values():
+            for dec in mfi.node.decorator_list:
+                nm = dec.func if isinstance(dec, ast.Call) else dec
+                nm = nm.attr if isinstance(nm, ast.Attribute) else (nm.id if isinstance(nm, ast.Name) else '')
+                if nm in ('lru_cache', 'cache', 'cached_property', 'memoize'):
+                    hooks.append('@%s on %s (a cache outside the object: not copied, not pickled)' % (nm, mfi.name))
         ob = Obligation('%s.%s:copy.hooks' % (ci.module, cname), '%s.%s' % (ci.module, cname), 'copy.hooks', [],
                         z3.BoolVal(not hooks), props=('C19',),
                         meta={'clause': 'the class defines none of %s (found: %s)' % (', '.join(COPY_HOOKS), hooks or 'none')})
